@@ -750,7 +750,7 @@ def correspond(ctx):
         # "before any invalid memory access": the memory-touching streams again under AddressSanitizer
         # (an access slipping past a check is reported by ASan in the child's stderr) and under clang
         mem = [(c, raw) for c, raw in zip(cases, impl_out) if c.stream in ("bounds", "lib-at", "lib-mod", "lib-bigspan", "strbyte", "deref", "narrow-sites", "corpus")]
-        for name, extra in (("asan", ["--cflags", "-fsanitize=address -fno-omit-frame-pointer -g"]), ("clang", ["--cc", "clang"])):
+        for name, extra in (("asan", ["--cflags=-fsanitize=address -fno-omit-frame-pointer -g"]), ("clang", ["--cc", "clang"])):
             try:
                 vexe = build_variant(ctx, name, extra)
                 vout = run_impl(vexe, [c.impl for c, _ in mem], 8)
